@@ -376,6 +376,12 @@ def run_shard(cfg):
             return [(d, "honest")]
         S.handshake({"name": "honest-capture", "filter": replace_filter("s2c", 2, grab), "honest": True})
         if "d" in other_session:
+            old = parse_server_hello(C, other_session["d"])
+            subst("old-session-signature-over-attacker-ephemeral", lambda b, cl: build_server_hello(C, b, eph=atk_eph.getPublicKey().getBytes(), signature=old["signature"]))
+            subst("old-session-signature-over-new-token", lambda b, cl: build_server_hello(C, b, token=b["token"] ^ 2, signature=old["signature"]))
+            subst("old-session-signature-over-current-params", lambda b, cl: build_server_hello(C, b, signature=old["signature"]))
+            subst("old-session-payload-with-current-signature", lambda b, cl: build_server_hello(C, b, payload=old["payload"]))
+
             def replay(d, cl):
                 return [(other_session["d"], "replay:other-session-hello")]
             k, p = S.handshake({"name": "replay-genuine-hello-of-another-session", "filter": replace_filter("s2c", 2, replay)})
